@@ -202,11 +202,14 @@ func ZZ_C05_bool() {
 // the compiler's exact constant arithmetic, not by strconv.
 func ZZ_C05_float() {
 	typ, i := rt.Param("typ"), rt.Param("i")
-	texts := []string{"1.5", "-2e3", ".5", "5.", "1e39", "1e400", "0.1", "-0", "3.4028235e38", "1E-3", "16777217", "+7"}
-	f64 := []float64{1.5, -2e3, .5, 5., 1e39, 0, 0.1, 0, 3.4028235e38, 1e-3, 16777217, 7}
-	f32 := []float32{1.5, -2e3, .5, 5., 0, 0, 0.1, 0, 3.4028235e38, 1e-3, 16777216, 7}
+	texts := []string{"1.5", "-2e3", ".5", "5.", "1e39", "1e400", "0.1", "-0", "3.4028235e38", "1E-3", "16777217", "+7",
+		"1.0000000596046447753906251", "1152921573326323713", "3.4028235e+38", "-3.4028235e+38", "1.7976931348623157e308", "4.9e-324", "1e-46"}
+	f64 := []float64{1.5, -2e3, .5, 5., 1e39, 0, 0.1, 0, 3.4028235e38, 1e-3, 16777217, 7,
+		1.0000000596046447753906251, 1152921573326323713, 3.4028235e+38, -3.4028235e+38, 1.7976931348623157e308, 4.9e-324, 1e-46}
+	f32 := []float32{1.5, -2e3, .5, 5., 0, 0, 0.1, 0, 3.4028235e38, 1e-3, 16777216, 7,
+		1.0000000596046447753906251, 1152921573326323713, 3.4028235e+38, -3.4028235e+38, 0, 0, 0}
 	text := "S1F1\n<" + zzTypes[typ] + " " + texts[i] + ">\n."
-	overflow := i == 5 || (typ == zzF4 && i == 4)
+	overflow := i == 5 || (typ == zzF4 && (i == 4 || i == 16))
 	if overflow {
 		zzRejected(text, "float-overflow")
 		rt.Reach("end")
@@ -227,5 +230,53 @@ func ZZ_C05_float() {
 		}
 		rt.Assert(zzBEv(p, 4) == want, "float-literal:f4-bits")
 	}
+	rt.Reach("end")
+}
+
+// ZZ_C05_floatmix: the same spelling in F4 and F8 items of one text (either order, in one
+// list and in consecutive messages) denotes the value of the written type each time.
+func ZZ_C05_floatmix() {
+	which := rt.Param("which")
+	lits := []string{"0.1", "16777217", "1e-3", "3.3"}
+	v64 := []float64{0.1, 16777217, 1e-3, 3.3}
+	v32 := []float32{0.1, 16777217, 1e-3, 3.3}
+	li := rt.Param("lit")
+	var text string
+	switch which {
+	case 0:
+		text = "S1F1\n<L <F4 " + lits[li] + "> <F8 " + lits[li] + ">>\n."
+	case 1:
+		text = "S1F1\n<L <F8 " + lits[li] + "> <F4 " + lits[li] + ">>\n."
+	case 2:
+		text = "S1F1\n<F4 " + lits[li] + ">\n.\nS1F1\n<F8 " + lits[li] + ">\n."
+	}
+	msgs, errs, _ := Parse(text)
+	rt.Assert(len(errs) == 0, "floatmix:no-error")
+	var all []byte
+	for _, m := range msgs {
+		all = append(all, m.SetSessionIDAndSystemBytes(1, []byte{0, 0, 0, 0}).SetWaitBit(false).ToBytes()...)
+	}
+	b4 := []byte{0x91, 4, byte(f32bits(v32[li]) >> 24), byte(f32bits(v32[li]) >> 16), byte(f32bits(v32[li]) >> 8), byte(f32bits(v32[li]))}
+	b8 := []byte{0x81, 8}
+	for sh := 56; sh >= 0; sh -= 8 {
+		b8 = append(b8, byte(f64bits(v64[li])>>uint(sh)))
+	}
+	contains := func(hay, needle []byte) bool {
+		for i := 0; i+len(needle) <= len(hay); i++ {
+			ok := true
+			for j := range needle {
+				if hay[i+j] != needle[j] {
+					ok = false
+					break
+				}
+			}
+			if ok {
+				return true
+			}
+		}
+		return false
+	}
+	rt.Assert(contains(all, b4), "floatmix:f4-value")
+	rt.Assert(contains(all, b8), "floatmix:f8-value")
 	rt.Reach("end")
 }
